@@ -468,6 +468,83 @@ class Gen:
         sc.vars[v] = ("n", True)
         return form, nm, "f0"
 
+    # ------------------------------------------------------------------ quasiquote over every container kind
+    def qq_template(self, sc, d, depth, indexed_parent=True, force=None, pure=False):
+        """template for (quasiquote ...): tuples, bracket tuples, arrays, tables, structs nested, with unquotes (and splices in
+        indexed containers) that build runtime values; dictionary entries are order-insensitive (hash order)"""
+        r = self.r
+        self.spend()
+        if depth <= 0 or self.budget < -40:
+            c = r.below(5)
+            if c == 0:
+                return r.range(0, 9)
+            if c == 1:
+                return Sym(r.choice(["p", "q", "z"]))
+            if c == 2:
+                return Kw(r.choice(KWS))
+            return S("unquote", self.pn(sc) if (pure or not indexed_parent) else (self.n(sc, d + 2) if r.chance(1, 3) else self.pn(sc)))
+        kind = force or r.choice(["tup", "tup", "btup", "arr", "arr", "tab", "stc"])
+        self.features.add("qq-" + kind)
+        if kind in ("tup", "btup", "arr"):
+            items = []
+            if kind == "tup":
+                items.append(Sym(r.choice(["p", "q", "r"])))
+            for _ in range(r.range(2, 3)):
+                c = r.below(6)
+                if force and c >= 3 and r.chance(2, 3):
+                    c = 0
+                if c < 3 and force:
+                    # a nested container that is certainly built at run time
+                    items.append(T([Sym(r.choice(["p", "q", "r"])), S("unquote", self.pn(sc)), self.qq_template(sc, d, depth - 2, True, None, pure)]) if r.chance(1, 2)
+                                 else self.qq_template(sc, d, max(depth - 1, 1), True, r.choice(["tup", "btup", "arr", "stc"]), pure))
+                elif c < 3:
+                    items.append(self.qq_template(sc, d, depth - 1, True, None, pure))
+                elif c == 3:
+                    items.append(S("unquote", self.n(sc, d + 2) if (r.chance(1, 2) and not pure) else self.pn(sc)))
+                elif c == 4:
+                    arrs = self.vars_of(sc, "a") + self.vars_of(sc, "t")
+                    if arrs:
+                        self.features.add("qq-splice")
+                        items.append(S("unquote", S("splice", Sym(r.choice(arrs)))))
+                    else:
+                        items.append(r.range(0, 9))
+                else:
+                    items.append(r.range(0, 9))
+            if kind == "tup":
+                return T(items)
+            if kind == "btup":
+                return T(items, br=True)
+            return Lit("arr", items)
+        xs = []
+        for kk in KWS[: r.range(1, 3)]:
+            xs += [Kw(kk), self.qq_template(sc, d, depth - 1, False, None, True)]
+        return Lit("tab" if kind == "tab" else "stc", xs)
+
+    def qq_statement(self, sc, d):
+        """quasiquoted containers in hinted and unhinted positions: (set local ..), (def ..), (var ..), call argument,
+        return position of a function"""
+        r = self.r
+        self.features.add("qq-containers")
+        mk = lambda: S("quasiquote", self.qq_template(sc, d, r.range(1, 3), True, r.choice([None, "arr", "tup", "btup", "tab", "stc"])))
+        c = r.below(5)
+        if c == 0:
+            v = self.fresh("u", sc, noshadow=True)
+            self.reserved.add(v)
+            return S("upscope", S("var", v, r.choice([None, 0])), S("set", v, mk()), S("emit", v))
+        if c == 1:
+            v = self.fresh("u", sc, noshadow=True)
+            self.reserved.add(v)
+            return S("upscope", S("def", v, mk()), S("emit", v))
+        if c == 2:
+            v = self.fresh("u", sc, noshadow=True)
+            self.reserved.add(v)
+            return S("upscope", S("var", v, mk()), S("set", v, S("tuple", v, mk())), S("emit", v))
+        if c == 3:
+            return S("emit", mk())
+        if not self.closures:
+            return S("emit", S("tuple", mk(), mk()))
+        return S("emit", S(S("fn", B(), mk())))
+
     # ------------------------------------------------------------------ nested loops creating closures at every level
     def nested_closure_loops(self, sc, d):
         """2-3 nested loops (while / for / each / loop with one or two bindings / seq); closures are created at every
@@ -602,7 +679,7 @@ class Gen:
         if c < 9:
             self.features.add("destructure")
             cc = r.below(4)
-            p, q = self.fresh("x", sc), self.fresh("y", sc)
+            p, q = self.fresh("x", sc, noshadow=(cc == 2)), self.fresh("y", sc)
             if cc == 0:
                 f = S(r.choice(["def", "var"]), B(p, q), B(self.n(sc, d + 1), self.n(sc, d + 1)))
                 sc.vars[p] = ("n", f.xs[0].name == "var")
@@ -634,6 +711,8 @@ class Gen:
                     return S("+=", v, self.n(sc, d + 1))
                 return S("set", v, self.n(sc, d + 1))
             return S("emit", self.n(sc, d + 1))
+        if c < 16 and r.chance(1, 2):
+            return self.qq_statement(sc, d)
         if c < 16:
             return S("emit", self.x(sc, d + 1))
         if c < 17:
